@@ -1175,6 +1175,24 @@ func (g *gen) episode() {
 		g.duts = append(g.duts, dutyInfo{base, typ, 'E'})
 		g.nv = 1 + rng.Intn(2)
 		shares := rng.Perm(g.n)
+		if rng.Chance(1, 3) {
+			// the cap eviction runs while the threshold-reaching call is parked between its store and its threshold
+			// check: share `rep` (oldest exempt entry: duty 0) stores its 11th distinct exempt duty in call b, which
+			// filters duty 0's entry list in place; call a must still hand over the list it stored into
+			for i := 0; i < g.t-1; i++ {
+				g.emit(g.plain(0, shares[i]+1))
+			}
+			rep := shares[rng.Intn(g.t-1)] + 1
+			for j := 1; j <= 9; j++ {
+				g.duts = append(g.duts, dutyInfo{base + uint64(j), typ, 'E'})
+				g.emit(g.plain(len(g.duts)-1, rep))
+			}
+			g.duts = append(g.duts, dutyInfo{base + 10, typ, 'E'})
+			g.emitG(g.plain(0, shares[g.t-1]+1), g.plain(len(g.duts)-1, rep))
+			g.d.run.Count("gpar:exempt_eviction_while_parked")
+			g.randomOps(3 + rng.Intn(6))
+			return
+		}
 		for i := 0; i < g.t; i++ {
 			g.emit(g.plain(0, shares[i]+1))
 		}
